@@ -313,6 +313,8 @@ mod memory;
 mod mpmc;
 mod multiqueue;
 mod read_cursor;
+#[cfg(multiqueue2_verif)]
+pub mod verif_hooks;
 pub mod wait;
 
 pub use crate::broadcast::{
